@@ -134,6 +134,8 @@ def check_payload(ctx, flavour, spec, ev, detail):
                 else:
                     ok = isinstance(reason, str) and all(t in reason for t in text_tokens(spec))
                     why = "synthetic reason does not contain every text detail"
+    if ok and p.get("todo") is not None:
+        ok, why = False, "something was handed over as Twisted's `todo` argument"
     ctx.check(ok, "leaf.payload-carries-the-information",
               lambda: {"flavour": flavour, "spec": spec, "delivered": ev.name, "payload": p, "why": why,
                        **detail()})
@@ -270,7 +272,56 @@ def x_case(ctx, case):
     return stack[0] != "leaf" and any(op[0] == "test" for op in history)
 
 
-SUBCHECKS = {"case": x_case}
+def x_holder(ctx, case):
+    """PlaceHolder / ErrorHolder objects - what testtools itself runs through the adapters for broken runners,
+    failed imports and replayed stream tests - report their error's traceback under 'traceback' ("any existing
+    key will be overridden") next to the details they were given, whatever the stack degrades them to."""
+    import testtools
+    from testtools.content import text_content
+    top, built = H.build_stack(case["stack"])
+    exc_info = H.make_exc_info("<<HX>>")
+    details = {}
+    if case["stale_traceback"]:
+        details["traceback"] = text_content("STALE-traceback-of-an-earlier-attempt")
+    if case["extra"]:
+        details["log"] = text_content("<<HL>>")
+    holder = testtools.ErrorHolder("holder.id", error=exc_info, details=details or None)
+    top.startTestRun()
+    holder.run(top)
+    top.stopTestRun()
+    detail = lambda: {"case": case}  # noqa: E731
+    seen = 0
+    for path, flavour, log, obj in built.leaves:
+        outs = [e for e in log.events if e.name in recorders.OUTCOMES]
+        ok = len(outs) == 1 and outs[0].name == "addError"
+        text = b""
+        if ok:
+            p = outs[0].payload or {}
+            if flavour in ("ext", "real"):
+                got = {n: v[1] for n, v in (p.get("details") or {}).items()}
+                text = got.get("traceback", b"")
+                ok = (b"<<HX>>" in text and b"STALE" not in b"".join(got.values())
+                      and (not case["extra"] or got.get("log") == b"<<HL>>"))
+            else:
+                err = p.get("err")
+                text = (err[1] if err else "").encode("utf8", "replace")
+                ok = b"<<HX>>" in text and b"STALE" not in text and (not case["extra"] or b"<<HL>>" in text)
+        seen += 1
+        ctx.check(ok, "leaf.payload-carries-the-information",
+                  lambda: {"flavour": flavour, "delivered": [e.name for e in outs], "text": text[-300:], **detail()})
+    for path, calls in built.tbt:
+        ok = len(calls) == 1 and calls[0]["status"] == "error"
+        if ok:
+            got = {n: v[1] for n, v in (calls[0]["details"] or {}).items()}
+            ok = (b"<<HX>>" in got.get("traceback", b"") and b"STALE" not in b"".join(got.values())
+                  and (not case["extra"] or got.get("log") == b"<<HL>>"))
+        seen += 1
+        ctx.check(ok, "tbt.callback-fields", lambda: {"holder": True, "calls": [
+            {k2: v for k2, v in c.items() if k2 != "_seq"} for c in calls], **detail()})
+    return seen > 0
+
+
+SUBCHECKS = {"case": x_case, "holder": x_holder}
 
 
 def single_test_histories():
@@ -333,6 +384,15 @@ def run(ctx):
                 ctx.execute("case", {"stack": s, "history": h}, sample=(n % 499 == 0))
     ctx.note_space("%d stacks of depth <= 2 (+ depth-3 wrappers) x %d single-test histories (6 outcomes x "
                    "forms x test kinds x detail sets)" % (len(upto2), len(hists)), n)
+    n = 0
+    for s in upto2:
+        for stale in (False, True):
+            for extra in (False, True):
+                if ctx.mine():
+                    n += 1
+                    ctx.execute("holder", {"stack": s, "stale_traceback": stale, "extra": extra})
+    ctx.note_space("%d stacks of depth <= 2 x an ErrorHolder with / without a stale 'traceback' detail and another "
+                   "detail" % len(upto2), n)
     # one lazy Content object (a log buffer) attached to every one of 2-3 tests, its source moving on in between
     n = 0
     OUTS = ["addFailure", "addError", "addSkip", "addExpectedFailure", "addSuccess", "addUnexpectedSuccess"]
